@@ -10,6 +10,7 @@
 import GoNeat.Proofs.PlainIO
 import GoNeat.Proofs.Codec
 import GoNeat.Model.RegistryCodec
+import GoNeat.Model.LegacyCodec
 
 namespace GoNeat.C15
 open GoNeat.PlainIO
@@ -348,6 +349,20 @@ theorem readPopulation_legacy_counterexample :
     (parsePop natCodec (renderPop natCodec [exGenome])).toOption.map
         (·.map fun g => (g.traits.map (·.id), g.genes.map (·.trait))) = some [([1, 3], [some 1, none, some 3])] := by
   decide
+
+/-- **Counterexample against the shipped `NodeWithId`** (`Codec.Legacy.decWires`: the helper answered nil for id 0).
+    A module reading node 0 and writing node 1 - legal, `Genome.verify`, `Genesis` and the YAML writer accept it - is
+    written, and the pre-repair reader refuses its own writer's output with "no MIMO input node with id: 0"; the repaired
+    reader (`decWires`) restores the wires.  Replayed on the real code: op `ioYaml`, family `modular:hand`, node ids
+    starting at 0 (VERIF_SEED=2..6 of the unchanged-tree sweep). -/
+theorem yaml_module_node_zero_counterexample :
+    let nodes : List Node := [{ id := 0, kind := Kind.input, act := 0, trait := none },
+                              { id := 1, kind := Kind.output, act := 0, trait := none }]
+    let ws : List (Wire Nat) := [{ node := 0, w := 1, recur := false, trait := none }]
+    Codec.Legacy.decWires { zero := 0, one := 1 } nodes (encWires 0 ws) = .error (.noModuleNode 0) ∧
+    decWires { zero := 0, one := 1 } nodes (encWires 0 ws) = .ok ws := by
+  intro nodes ws
+  exact ⟨by simp [nodes, ws, encWires, Codec.Legacy.decWires, Codec.get, List.lookup], by simp [nodes, ws, encWires, decWires, Codec.get, List.lookup]⟩
 
 /-- **Observation (YAML modules).** The YAML writer does not write module link weights (`encWires` holds only
     endpoint id and order) and the reader rebuilds every module link as `NewLink(1.0, …)`: whatever the source
